@@ -9,7 +9,7 @@ sys.path.insert(0, os.path.join(os.path.dirname(os.path.dirname(os.path.abspath(
 from test_framework import descriptors as _desc  # noqa: E402  (vendored, independent Python implementation)
 from test_framework import segwit_addr as _sw  # noqa: E402
 from test_framework import address as _addr  # noqa: E402
-from pyref import b58, bip32, bip32_vectors  # noqa: E402  (own references)
+from pyref import b58, bip32, bip32_vectors, descref  # noqa: E402  (own references)
 
 ID = "C45"
 LEVEL = "exploration"
@@ -29,12 +29,12 @@ ASSUMPTIONS = [
     "references: own BIP32 (hashlib HMAC-SHA512 + vendored pure-Python secp256k1), own base58check, vendored descsum_create, bech32_encode, encode_segwit_address; network prefixes from an own table",
     "input strings are produced with the repository's own key/address encoders (EncodeSecret/EncodeExtKey/EncodeDestination); those encoders are themselves compared with the references in the bip32 and address families",
     "HRP substitutions of the bech32 family keep the upper three bits of the character (exactly one checksum symbol changes per substituted character, the case the BCH guarantee speaks about); the separator is never substituted",
-    "descriptor scripts are compared between parse/print round trips, not against an independent script construction (except BIP32 keys and addresses, which have their own families)",
+    "descriptor scripts are compared between parse/print round trips; an independent script construction (pyref/descref.py) exists only for single-key pk/pkh/wpkh/sh(wpkh)/tr(KEY)/rawtr descriptors",
     "tr() descriptors: a private string that prints a 33-byte hex key as WIF re-parses with the x-only spelling of that key; reported under its own key descriptor-privstring-public-differs-xonly-spelling",
 ]
 REQUIRED = [
     "accepted", "rejected", "private_strings", "expansions", "expansions_needing_private_keys", "expansions_private", "multipath_accepted",
-    "substitutions", "substitution_exhaustive_descriptors", "descsum_compared",
+    "substitutions", "substitution_exhaustive_descriptors", "descsum_compared", "scripts_compared_with_reference", "scripts_reference_says_underivable",
     "feat:musig", "feat:miniscript_wsh", "feat:miniscript_tap", "feat:tr_tree", "feat:hardened_range", "feat:origin", "feat:sortedmulti",
     "feat:multi_a", "feat:sortedmulti_a", "feat:combo", "feat:addr", "feat:raw", "feat:rawtr", "feat:xprv", "feat:wif", "feat:multipath",
     "bip32_vector_cases", "bip32_steps_compared", "hardened_steps", "unhardened_steps",
@@ -82,6 +82,20 @@ def _check_desc(rec, st):
             if want != s:
                 st.violation("descriptor-checksum-differs-from-reference", "checksum printed by ToString/ToPrivateString differs from the Python descsum reference",
                              {"string": s, "reference": want}, rec["case"])
+    # single-key descriptors: scripts recomputed by the own reference (BIP32 + script templates + taproot tweak)
+    for d in rec["d"]:
+        s = d.get("priv") or d["pub"]
+        for pos, got in d.get("exp", []):
+            want = descref.script(rec["chain"], s, pos)
+            if want is None:
+                break
+            st.seen("scripts_compared_with_reference")
+            if want == descref.FAIL:
+                st.seen("scripts_reference_says_underivable")
+                if not got.startswith("fail:"):
+                    st.violation("descriptor-script-derived-without-private-key", "a script was derived through a hardened step below an xpub", {"desc": s, "pos": pos, "got": got}, rec["case"])
+            elif got != "ok:" + want.hex() + ",":
+                st.violation("descriptor-script-differs-from-reference", "expanded script differs from the reference derivation", {"desc": s, "pos": pos, "got": got, "want": want.hex()}, rec["case"])
     if "#" in rec["in"]:
         payload, _, cs = rec["in"].rpartition("#")
         if _desc.descsum_create(payload) != rec["in"]:
